@@ -359,6 +359,14 @@ def malformed(ctx):
                 'flatten': lambda: optree.tree_flatten(tree, namespace='ns'),
                 'with_path': lambda: optree.tree_flatten_with_path(tree, namespace='ns'),
                 'iter': lambda: list(optree.tree_iter(tree, namespace='ns')),
+                'with_accessor': lambda: optree.tree_flatten_with_accessor(tree, namespace='ns'),
+                'leaves': lambda: optree.tree_leaves(tree, namespace='ns'),
+                'structure': lambda: optree.tree_structure(tree, namespace='ns'),
+                'paths': lambda: optree.tree_paths(tree, namespace='ns'),
+                'accessors': lambda: optree.tree_accessors(tree, namespace='ns'),
+                'map_with_path': lambda: optree.tree_map_with_path(lambda p, x: x, tree, namespace='ns'),
+                'map_with_accessor': lambda: optree.tree_map_with_accessor(lambda a, x: x, tree, namespace='ns'),
+                'map_': lambda: optree.tree_map_(lambda x: x, tree, namespace='ns'),
                 'map': lambda: optree.tree_map(lambda x: x, tree, namespace='ns'),
                 'flatten_up_to': lambda: gspec.flatten_up_to(tree),
                 'map-rest': lambda: optree.tree_map(lambda x, y: x, good, tree, namespace='ns'),
@@ -370,6 +378,14 @@ def malformed(ctx):
             }
             well_formed_but_inconsistent = mode in ('returns-list', 'children-generator', 'children-list',
                                                     'entries-list', 'entries-none')
+            # a malformed return is rejected by EVERY traversal, not silently repaired by some of them
+            traversals = ('flatten', 'with_path', 'iter', 'with_accessor', 'leaves', 'structure', 'paths', 'accessors',
+                          'map_with_path', 'map_with_accessor', 'map_', 'map')
+            verdicts = {name: outcome_of(ops[name])[0] for name in traversals}
+            ctx.count()
+            if len(set(verdicts.values())) != 1:
+                ctx.violation('malformed-accepted-by-some', f'{PROP}:malformed-return-accepted-by-some-traversals',
+                              {'malformed': mode, 'arity': arity}, repr(verdicts))
             for name, op in ops.items():
                 if well_formed_but_inconsistent and name in ('prefix_errors', 'broadcast', 'map-rest', 'flatten_up_to'):
                     continue  # a legal return on its own; pairing it with a differently-behaving instance is not "malformed"
